@@ -229,6 +229,7 @@ func (x *Exec) verify(fn *ssa.Function, ct *Contract, rep *FuncReport) {
 		l := x.newCell(st, t, fvv.Name(), nil)
 		c := st.cells[l.CellID]
 		c.V = x.symbolic(st, t, fvv.Name(), true)
+		x.tagOrigin(c.V, t, funcKey(fn)+"#"+fvv.Name())
 		fr.env[fvv] = &PtrV{Loc: l, Elem: t}
 	}
 	// type invariants of pointer parameters are assumed when they are dereferenced (nilCheck).
